@@ -1,12 +1,947 @@
-//! C13 — ops evaluated on the real code and the generator of their inputs.
-#![allow(unused_imports, dead_code, clippy::all)]
+//! C13 — short programs over graaf's safe public API (memory safety / leak freedom).
+//!
+//! Every op prints `<oc> ret <digest…>` or `<oc> panic`, `<oc>` = `oc1` when the build has
+//! integer-overflow checks (dev profile), `oc0` otherwise (release): three outcomes on the
+//! order-0 `AdjacencyMap` depend on it. The digest forces every lazy iterator to be consumed;
+//! the driver compares the outcome class (and, for the functions that have a `Chk` model,
+//! the complete result). A sanitizer report / signal / abort kills the process: the
+//! orchestrator turns that into `fault`, i.e. a property failure with the line as replay.
+//!
+//!   chk_gen   <repr> <name> <arg>*                  constructors (generators, `empty`, `trivial`)
+//!   chk_rows  <repr> <rows|pairs>                   `From<rows>` / `From<pairs>` constructors
+//!   chk_from  <desc> <dst repr>                     conversions between representations
+//!   chk_q     <name> <desc> <arg>*                  every query / operation (see `q_unweighted`)
+//!   chk_chain <desc | [gen repr name arg*]> [cpl|cnv|uni|dbl|cln …] <consumer>   producers then a consumer
+//!   chk_hist  <desc> [[add u v] [rem u v] [tog u v] [outdeg u] [indeg u] [outn u] …]
+//!   chk_it    <kind> <desc> <sources> <rounds>      the nine traversal iterators
+//!   chk_alg   <name> <desc> <arg>*                  derived algorithm entry points
+//!   chk_mx    <order> [[add u v] [tog u v] [rem u v] [has u v] …]
+//!   chk_dm    <name> <arg>*                         `DistanceMatrix` (incl. literal pub fields)
+//!   chk_pt    <name> <arg>*                         `PredecessorTree::{new, index}`
+//!   chk_prng  <seed> <k>
+//!   chk_leak  <k> [<op> <arg>*]                     run the program k times, live-byte delta
+#![allow(clippy::all)]
 
-use crate::graphs::{self, Desc};
-use crate::rng::Rng;
+#[path = "c13/gen.rs"]
+mod generator;
+
+use crate::graphs::Desc;
 use crate::value::V;
+use crate::with_digraph;
+use graaf::gen::prng::Xoshiro256StarStar;
+use graaf::{
+    AddArc, AddArcWeighted, AdjacencyList, AdjacencyListWeighted, AdjacencyMap, AdjacencyMatrix,
+    ArcWeight, Arcs, ArcsWeighted, BellmanFordMoore, Bfs, BfsDist, BfsPred, Biclique, Circuit,
+    Complement, Complete, ContiguousOrder, Converse, Cycle, Degree, DegreeSequence, Dfs, DfsDist,
+    DfsPred, Dijkstra, DijkstraDist, DijkstraPred, DistanceMatrix, EdgeList, Empty, ErdosRenyi,
+    FilterVertices, FloydWarshall, HasArc, HasEdge, HasWalk, InNeighbors, Indegree,
+    IndegreeSequence, IsBalanced, IsComplete, IsIsolated, IsOriented, IsPendant, IsRegular,
+    IsSemicomplete, IsSimple, IsSpanningSubdigraph, IsSubdigraph, IsSuperdigraph, IsSymmetric,
+    IsTournament, Johnson75, Order, OutNeighbors, OutNeighborsWeighted, Outdegree,
+    OutdegreeSequence, Path, PredecessorTree, RandomRecursiveTree, RandomTournament, RemoveArc,
+    SemidegreeSequence, Sinks, Size, Sources, Star, Tarjan, Union, Vertices, Wheel,
+};
+use std::collections::{BTreeMap, BTreeSet};
+use std::panic::{catch_unwind, AssertUnwindSafe};
 
-pub fn eval(_op: &str, _args: &[V]) -> Option<Vec<V>> {
-    None
+pub use generator::gen;
+
+// ------------------------------------------------------------------------------- digests
+
+const M61: u128 = (1 << 61) - 1;
+
+fn mix(h: u128, x: u128) -> u128 {
+    (h * 1_000_003 + x + 1) % M61
 }
 
-pub fn gen(_rng: &mut Rng, _thorough: bool, _emit: &mut dyn FnMut(String)) {}
+/// length + order-sensitive hash of a sequence of numbers
+fn dig<I: IntoIterator<Item = usize>>(it: I) -> Vec<V> {
+    let mut h = 7u128;
+    let mut n = 0usize;
+    for x in it {
+        h = mix(h, x as u128);
+        n += 1;
+    }
+    vec![V::u(n), V::I(h as i128)]
+}
+
+fn dig_pairs<I: IntoIterator<Item = (usize, usize)>>(it: I) -> Vec<V> {
+    dig(it.into_iter().flat_map(|(a, b)| [a, b]))
+}
+
+/// order, size, hash of `vertices()` and `arcs()` of a digraph value
+fn dig_digraph<D: Arcs + Order + Size + Vertices>(d: &D) -> Vec<V> {
+    let mut out = vec![V::u(d.order()), V::u(d.size())];
+    out.extend(dig(d.vertices()));
+    out.extend(dig_pairs(d.arcs()));
+    out
+}
+
+fn b(x: bool) -> Vec<V> {
+    vec![V::bool(x)]
+}
+
+fn u(x: usize) -> Vec<V> {
+    vec![V::u(x)]
+}
+
+/// Does this build check integer overflow? (profile-wide, so it holds for graaf too)
+fn overflow_checks() -> bool {
+    let x = std::hint::black_box(usize::MAX);
+    let y = std::hint::black_box(1usize);
+    catch_unwind(|| x + y).is_err()
+}
+
+fn oc() -> V {
+    use std::sync::OnceLock;
+    static OC: OnceLock<bool> = OnceLock::new();
+    V::atom(if *OC.get_or_init(overflow_checks) { "oc1" } else { "oc0" })
+}
+
+/// Run one program; outcome class + digest.
+fn class<F: FnOnce() -> Option<Vec<V>>>(f: F) -> Option<Vec<V>> {
+    match catch_unwind(AssertUnwindSafe(f)) {
+        Ok(Some(mut d)) => {
+            let mut out = vec![oc(), V::atom("ret")];
+            out.append(&mut d);
+            Some(out)
+        }
+        Ok(None) => None,
+        Err(_) => Some(vec![oc(), V::atom("panic")]),
+    }
+}
+
+// ------------------------------------------------------------------------------- constructors
+
+macro_rules! gen_unweighted {
+    ($t:ty, $name:expr, $a:expr) => {{
+        let a: &[V] = $a;
+        let n = |i: usize| a.get(i).and_then(V::as_usize);
+        let d: $t = match $name {
+            "empty" => <$t>::empty(n(0)?),
+            "trivial" => <$t>::trivial(),
+            "biclique" => <$t>::biclique(n(0)?, n(1)?),
+            "claw" => <$t>::claw(),
+            "utility" => <$t>::utility(),
+            "circuit" => <$t>::circuit(n(0)?),
+            "complete" => <$t>::complete(n(0)?),
+            "cycle" => <$t>::cycle(n(0)?),
+            "path" => <$t>::path(n(0)?),
+            "star" => <$t>::star(n(0)?),
+            "wheel" => <$t>::wheel(n(0)?),
+            "er" => <$t>::erdos_renyi(n(0)?, f64::from_bits(a.get(1)?.as_u64()?), a.get(2)?.as_u64()?),
+            "rrt" => <$t>::random_recursive_tree(n(0)?, a.get(1)?.as_u64()?),
+            "rt" => <$t>::random_tournament(n(0)?, a.get(1)?.as_u64()?),
+            _ => return None,
+        };
+        Some(dig_digraph(&d))
+    }};
+}
+
+fn run_gen(repr: &str, name: &str, a: &[V]) -> Option<Vec<V>> {
+    match repr {
+        "al" => gen_unweighted!(AdjacencyList, name, a),
+        "am" => gen_unweighted!(AdjacencyMap, name, a),
+        "mx" => gen_unweighted!(AdjacencyMatrix, name, a),
+        "el" => gen_unweighted!(EdgeList, name, a),
+        "wu" | "wi" => {
+            let n = a.first().and_then(V::as_usize);
+            macro_rules! w {
+                ($w:ty) => {{
+                    let d = match name {
+                        "empty" => AdjacencyListWeighted::<$w>::empty(n?),
+                        "trivial" => AdjacencyListWeighted::<$w>::trivial(),
+                        _ => return None,
+                    };
+                    Some(dig_digraph(&d))
+                }};
+            }
+            if repr == "wu" { w!(usize) } else { w!(isize) }
+        }
+        _ => None,
+    }
+}
+
+fn rows_sets(v: &V) -> Option<Vec<BTreeSet<usize>>> {
+    v.as_list()?.iter().map(|r| Some(r.as_usizes()?.into_iter().collect())).collect()
+}
+
+fn rows_maps(v: &V) -> Option<Vec<BTreeMap<usize, i128>>> {
+    v.as_list()?
+        .iter()
+        .map(|r| {
+            let mut m = BTreeMap::new();
+            for p in r.as_list()? {
+                let p = p.as_list()?;
+                if p.len() != 2 {
+                    return None;
+                }
+                let w = match &p[1] {
+                    V::I(w) => *w,
+                    _ => return None,
+                };
+                let _ = m.insert(p[0].as_usize()?, w);
+            }
+            Some(m)
+        })
+        .collect()
+}
+
+fn run_rows(repr: &str, rows: &V) -> Option<Vec<V>> {
+    match repr {
+        "al" => Some(dig_digraph(&AdjacencyList::from(rows_sets(rows)?))),
+        "am" => Some(dig_digraph(&AdjacencyMap::from(rows_sets(rows)?))),
+        "mx" => Some(dig_digraph(&AdjacencyMatrix::from(rows.as_pairs()?))),
+        "el" => Some(dig_digraph(&EdgeList::from(rows.as_pairs()?))),
+        "wu" => {
+            let rows: Vec<BTreeMap<usize, usize>> = rows_maps(rows)?
+                .into_iter()
+                .map(|m| m.into_iter().map(|(k, w)| (k, w as usize)).collect())
+                .collect();
+            Some(dig_digraph(&AdjacencyListWeighted::<usize>::from(rows)))
+        }
+        "wi" => {
+            let rows: Vec<BTreeMap<usize, isize>> = rows_maps(rows)?
+                .into_iter()
+                .map(|m| m.into_iter().map(|(k, w)| (k, w as isize)).collect())
+                .collect();
+            Some(dig_digraph(&AdjacencyListWeighted::<isize>::from(rows)))
+        }
+        _ => None,
+    }
+}
+
+fn run_from(src: &Desc, dst: &str) -> Option<Vec<V>> {
+    // the match arms above must type-check for every source type: dispatch by hand
+    match src.repr.as_str() {
+        "al" => {
+            let d = src.build_al();
+            match dst {
+                "am" => Some(dig_digraph(&AdjacencyMap::from(d))),
+                "mx" => Some(dig_digraph(&AdjacencyMatrix::from(d))),
+                "el" => Some(dig_digraph(&EdgeList::from(d))),
+                "wu" => Some(dig_digraph(&AdjacencyListWeighted::<usize>::from(d))),
+                "wi" => Some(dig_digraph(&AdjacencyListWeighted::<isize>::from(d))),
+                _ => None,
+            }
+        }
+        "am" => {
+            let d = src.build_am();
+            match dst {
+                "al" => Some(dig_digraph(&AdjacencyList::from(d))),
+                "mx" => Some(dig_digraph(&AdjacencyMatrix::from(d))),
+                "el" => Some(dig_digraph(&EdgeList::from(d))),
+                "wu" => Some(dig_digraph(&AdjacencyListWeighted::<usize>::from(d))),
+                "wi" => Some(dig_digraph(&AdjacencyListWeighted::<isize>::from(d))),
+                _ => None,
+            }
+        }
+        "mx" => {
+            let d = src.build_mx();
+            match dst {
+                "al" => Some(dig_digraph(&AdjacencyList::from(d))),
+                "am" => Some(dig_digraph(&AdjacencyMap::from(d))),
+                "el" => Some(dig_digraph(&EdgeList::from(d))),
+                "wu" => Some(dig_digraph(&AdjacencyListWeighted::<usize>::from(d))),
+                "wi" => Some(dig_digraph(&AdjacencyListWeighted::<isize>::from(d))),
+                _ => None,
+            }
+        }
+        "el" => {
+            let d = src.build_el();
+            match dst {
+                "al" => Some(dig_digraph(&AdjacencyList::from(d))),
+                "am" => Some(dig_digraph(&AdjacencyMap::from(d))),
+                "mx" => Some(dig_digraph(&AdjacencyMatrix::from(d))),
+                "wu" => Some(dig_digraph(&AdjacencyListWeighted::<usize>::from(d))),
+                "wi" => Some(dig_digraph(&AdjacencyListWeighted::<isize>::from(d))),
+                _ => None,
+            }
+        }
+        _ => None,
+    }
+}
+
+// ------------------------------------------------------------------------------- queries
+
+/// Queries every one of the six representations implements.
+fn q_common<D>(d: &D, name: &str, a: &[V]) -> Option<Vec<V>>
+where
+    D: Arcs + HasArc + HasEdge + HasWalk + InNeighbors + Indegree + IndegreeSequence + IsComplete
+        + IsRegular + IsSemicomplete + IsSimple + IsTournament + Order + OutNeighbors + Outdegree
+        + Size + Vertices + DegreeSequence,
+{
+    let n = |i: usize| a.get(i).and_then(V::as_usize);
+    Some(match name {
+        "arcs" => dig_pairs(d.arcs()),
+        "vertices" => dig(d.vertices()),
+        "order" => u(d.order()),
+        "size" => u(d.size()),
+        "has_arc" => b(d.has_arc(n(0)?, n(1)?)),
+        "has_edge" => b(d.has_edge(n(0)?, n(1)?)),
+        "has_walk" => b(d.has_walk(&a.first()?.as_usizes()?)),
+        "in_neighbors" => dig(d.in_neighbors(n(0)?)),
+        "out_neighbors" => dig(d.out_neighbors(n(0)?)),
+        "indegree" => u(d.indegree(n(0)?)),
+        "outdegree" => u(d.outdegree(n(0)?)),
+        "degree" => u(d.degree(n(0)?)),
+        "is_source" => b(d.is_source(n(0)?)),
+        "is_sink" => b(d.is_sink(n(0)?)),
+        "is_isolated" => b(d.is_isolated(n(0)?)),
+        "is_pendant" => b(d.is_pendant(n(0)?)),
+        "degree_sequence" => dig(d.degree_sequence()),
+        "indegree_sequence" => dig(d.indegree_sequence()),
+        "outdegree_sequence" => dig(d.outdegree_sequence()),
+        "semidegree_sequence" => dig_pairs(d.semidegree_sequence()),
+        "max_degree" => u(d.max_degree()),
+        "min_degree" => u(d.min_degree()),
+        "max_indegree" => u(d.max_indegree()),
+        "min_indegree" => u(d.min_indegree()),
+        "max_outdegree" => u(d.max_outdegree()),
+        "min_outdegree" => u(d.min_outdegree()),
+        "sinks" => dig(d.sinks()),
+        "sources" => dig(d.sources()),
+        "is_balanced" => b(d.is_balanced()),
+        "is_complete" => b(d.is_complete()),
+        "is_oriented" => b(d.is_oriented()),
+        "is_regular" => b(d.is_regular()),
+        "is_semicomplete" => b(d.is_semicomplete()),
+        "is_simple" => b(d.is_simple()),
+        "is_symmetric" => b(d.is_symmetric()),
+        "is_tournament" => b(d.is_tournament()),
+        "tarjan" => {
+            let mut t = Tarjan::new(d);
+            let cs = t.components();
+            let mut out = vec![V::u(cs.len())];
+            out.extend(dig(cs.iter().flat_map(|c| c.iter().copied())));
+            out
+        }
+        _ => return None,
+    })
+}
+
+/// Operations that produce / combine digraphs: the four unweighted representations.
+fn q_unweighted<D>(d: &D, name: &str, a: &[V], other: Option<&D>) -> Option<Vec<V>>
+where
+    D: Arcs + HasArc + Order + Size + Vertices + Complement + Converse + Union + Clone + AddArc + RemoveArc,
+{
+    let n = |i: usize| a.get(i).and_then(V::as_usize);
+    Some(match name {
+        "complement" => dig_digraph(&d.complement()),
+        "converse" => dig_digraph(&d.converse()),
+        "union" => dig_digraph(&d.union(other?)),
+        "is_subdigraph" => b(d.is_subdigraph(other?)),
+        "is_superdigraph" => b(d.is_superdigraph(other?)),
+        "is_spanning_subdigraph" => b(d.is_spanning_subdigraph(other?)),
+        "add_arc" => {
+            let mut e = d.clone();
+            e.add_arc(n(0)?, n(1)?);
+            dig_digraph(&e)
+        }
+        "remove_arc" => {
+            let mut e = d.clone();
+            let r = e.remove_arc(n(0)?, n(1)?);
+            let mut out = b(r);
+            out.extend(dig_digraph(&e));
+            out
+        }
+        "clone_eq" => {
+            let e = d.clone();
+            dig_digraph(&e)
+        }
+        _ => return None,
+    })
+}
+
+fn q_weighted<W>(d: &AdjacencyListWeighted<W>, name: &str, a: &[V], w: W) -> Option<Vec<V>>
+where
+    W: Copy + Clone,
+{
+    let n = |i: usize| a.get(i).and_then(V::as_usize);
+    Some(match name {
+        "converse" => dig_digraph(&d.converse()),
+        "contiguous_order" => u(d.contiguous_order()),
+        "arcs_weighted" => dig(d.arcs_weighted().flat_map(|(x, y, _)| [x, y])),
+        "out_neighbors_weighted" => dig(d.out_neighbors_weighted(n(0)?).map(|(v, _)| v)),
+        "arc_weight" => b(d.arc_weight(n(0)?, n(1)?).is_some()),
+        "add_arc_weighted" => {
+            let mut e = d.clone();
+            e.add_arc_weighted(n(0)?, n(1)?, w);
+            dig_digraph(&e)
+        }
+        "remove_arc" => {
+            let mut e = d.clone();
+            let r = e.remove_arc(n(0)?, n(1)?);
+            let mut out = b(r);
+            out.extend(dig_digraph(&e));
+            out
+        }
+        _ => return None,
+    })
+}
+
+fn run_q(name: &str, desc: &Desc, a: &[V]) -> Option<Vec<V>> {
+    // names with a second digraph argument
+    let other = a.first().and_then(Desc::parse).map(|o| o.with_repr(&desc.repr));
+    if let Some(r) = with_digraph!(desc, d => q_common(&d, name, a)) {
+        return Some(r);
+    }
+    match desc.repr.as_str() {
+        "al" => {
+            let d = desc.build_al();
+            let o = other.as_ref().map(Desc::build_al);
+            if name == "contiguous_order" {
+                return Some(u(d.contiguous_order()));
+            }
+            q_unweighted(&d, name, a, o.as_ref())
+        }
+        "mx" => {
+            let d = desc.build_mx();
+            let o = other.as_ref().map(Desc::build_mx);
+            if name == "contiguous_order" {
+                return Some(u(d.contiguous_order()));
+            }
+            if name == "toggle" {
+                let mut e = d.clone();
+                e.toggle(a.first()?.as_usize()?, a.get(1)?.as_usize()?);
+                return Some(dig_digraph(&e));
+            }
+            q_unweighted(&d, name, a, o.as_ref())
+        }
+        "el" => {
+            let d = desc.build_el();
+            let o = other.as_ref().map(Desc::build_el);
+            if name == "contiguous_order" {
+                return Some(u(d.contiguous_order()));
+            }
+            q_unweighted(&d, name, a, o.as_ref())
+        }
+        "am" => {
+            let d = desc.build_am();
+            let o = other.as_ref().map(Desc::build_am);
+            match name {
+                "filter_vertices" => {
+                    let keep = a.first()?.as_usizes()?;
+                    Some(dig_digraph(&d.filter_vertices(|v| keep.contains(&v))))
+                }
+                "johnson" => {
+                    let mut j = Johnson75::new(&d);
+                    let cs = j.circuits();
+                    let mut out = vec![V::u(cs.len())];
+                    out.extend(dig(cs.into_iter().flatten()));
+                    Some(out)
+                }
+                _ => q_unweighted(&d, name, a, o.as_ref()),
+            }
+        }
+        "wu" => q_weighted(&desc.build_wu(), name, a, 3usize),
+        "wi" => q_weighted(&desc.build_wi(), name, a, -2isize),
+        _ => None,
+    }
+}
+
+// ------------------------------------------------------------------------------- chains
+
+/// A producer chain followed by a consumer with unchecked accesses: the representation
+/// invariant every unchecked access relies on must hold for the RESULT of every operation.
+fn chain<D>(mut d: D, producers: &[V], consumer: &str) -> Option<Vec<V>>
+where
+    D: Arcs + Order + Size + Vertices + Complement + Converse + Union + Clone + DegreeSequence + IndegreeSequence
+        + IsTournament + IsSemicomplete + OutNeighbors + IsComplete + HasArc,
+{
+    for p in producers {
+        d = match p.as_atom()? {
+            "cpl" => d.complement(),
+            "cnv" => d.converse(),
+            "uni" => d.union(&d.converse()),
+            "dbl" => d.union(&d),
+            "cln" => d.clone(),
+            _ => return None,
+        };
+    }
+    Some(match consumer {
+        "degree_sequence" => dig(d.degree_sequence()),
+        "indegree_sequence" => dig(d.indegree_sequence()),
+        "converse" => dig_digraph(&d.converse()),
+        "complement" => dig_digraph(&d.complement()),
+        "is_tournament" => b(d.is_tournament()),
+        "is_semicomplete" => b(d.is_semicomplete()),
+        "is_complete" => b(d.is_complete()),
+        "is_symmetric" => b(d.is_symmetric()),
+        "arcs" => dig_digraph(&d),
+        "tarjan" => {
+            let mut t = Tarjan::new(&d);
+            vec![V::u(t.components().len())]
+        }
+        "bfs" => {
+            // from the vertices that are also valid indices
+            let n = d.order();
+            let src: Vec<usize> = d.vertices().filter(|&v| v < n).take(2).collect();
+            match catch_unwind(AssertUnwindSafe(|| Bfs::new(&d, src.into_iter()).count())) {
+                Ok(k) => vec![V::u(k)],
+                Err(_) => vec![V::atom("inner-panic")],
+            }
+        }
+        _ => return None,
+    })
+}
+
+fn run_chain(start: &V, producers: &[V], consumer: &str) -> Option<Vec<V>> {
+    // start = a description or `[gen <repr> <name> <arg>*]`
+    if let Some(xs) = start.as_list() {
+        if xs.first().and_then(V::as_atom) == Some("gen") {
+            let repr = xs.get(1)?.as_atom()?;
+            let name = xs.get(2)?.as_atom()?;
+            let a = &xs[3..];
+            macro_rules! g {
+                ($t:ty) => {{
+                    let n = |i: usize| a.get(i).and_then(V::as_usize);
+                    let d: $t = match name {
+                        "empty" => <$t>::empty(n(0)?),
+                        "biclique" => <$t>::biclique(n(0)?, n(1)?),
+                        "circuit" => <$t>::circuit(n(0)?),
+                        "complete" => <$t>::complete(n(0)?),
+                        "cycle" => <$t>::cycle(n(0)?),
+                        "path" => <$t>::path(n(0)?),
+                        "star" => <$t>::star(n(0)?),
+                        "wheel" => <$t>::wheel(n(0)?),
+                        "er" => <$t>::erdos_renyi(n(0)?, f64::from_bits(a.get(1)?.as_u64()?), a.get(2)?.as_u64()?),
+                        "rrt" => <$t>::random_recursive_tree(n(0)?, a.get(1)?.as_u64()?),
+                        "rt" => <$t>::random_tournament(n(0)?, a.get(1)?.as_u64()?),
+                        _ => return None,
+                    };
+                    chain(d, producers, consumer)
+                }};
+            }
+            return match repr {
+                "al" => g!(AdjacencyList),
+                "am" => g!(AdjacencyMap),
+                "mx" => g!(AdjacencyMatrix),
+                "el" => g!(EdgeList),
+                _ => None,
+            };
+        }
+    }
+    let desc = Desc::parse(start)?;
+    match desc.repr.as_str() {
+        "al" => chain(desc.build_al(), producers, consumer),
+        "am" => chain(desc.build_am(), producers, consumer),
+        "mx" => chain(desc.build_mx(), producers, consumer),
+        "el" => chain(desc.build_el(), producers, consumer),
+        _ => None,
+    }
+}
+
+// ------------------------------------------------------------------------------- histories
+
+fn step_class<F: FnOnce()>(f: F) -> V {
+    V::atom(if catch_unwind(AssertUnwindSafe(f)).is_ok() { "r" } else { "p" })
+}
+
+fn run_hist(desc: &Desc, steps: &[V]) -> Option<Vec<V>> {
+    macro_rules! go {
+        ($d:expr, $tog:expr) => {{
+            let mut d = $d;
+            let mut out = Vec::new();
+            for s in steps {
+                let s = s.as_list()?;
+                let op = s.first()?.as_atom()?;
+                let x = s.get(1).and_then(V::as_usize)?;
+                let y = s.get(2).and_then(V::as_usize);
+                let c = match op {
+                    "add" => { let y = y?; step_class(|| d.add_arc(x, y)) }
+                    "rem" => { let y = y?; step_class(|| { let _ = d.remove_arc(x, y); }) }
+                    "tog" => { let y = y?; let f: fn(&mut _, usize, usize) = $tog; step_class(|| f(&mut d, x, y)) }
+                    "outdeg" => step_class(|| { let _ = d.outdegree(x); }),
+                    "indeg" => step_class(|| { let _ = d.indegree(x); }),
+                    "outn" => step_class(|| { let _ = d.out_neighbors(x).count(); }),
+                    "has" => { let y = y?; step_class(|| { let _ = d.has_arc(x, y); }) }
+                    _ => return None,
+                };
+                out.push(c);
+            }
+            let mut res = vec![V::L(out)];
+            res.extend(dig_digraph(&d));
+            Some(res)
+        }};
+    }
+    match desc.repr.as_str() {
+        "al" => go!(desc.build_al(), |d: &mut AdjacencyList, x, y| { d.add_arc(x, y) }),
+        "am" => go!(desc.build_am(), |d: &mut AdjacencyMap, x, y| { d.add_arc(x, y) }),
+        "mx" => go!(desc.build_mx(), |d: &mut AdjacencyMatrix, x, y| { d.toggle(x, y) }),
+        "el" => go!(desc.build_el(), |d: &mut EdgeList, x, y| { d.add_arc(x, y) }),
+        _ => None,
+    }
+}
+
+/// `AdjacencyMatrix` index arithmetic: per-step results, then the arcs.
+fn run_mx(order: usize, steps: &[V]) -> Option<Vec<V>> {
+    let mut d = AdjacencyMatrix::empty(order);
+    let mut out = Vec::new();
+    for s in steps {
+        let s = s.as_list()?;
+        let op = s.first()?.as_atom()?;
+        let x = s.get(1)?.as_usize()?;
+        let y = s.get(2)?.as_usize()?;
+        let c = match op {
+            "add" => step_class(|| d.add_arc(x, y)),
+            "tog" => step_class(|| d.toggle(x, y)),
+            "rem" => catch_unwind(AssertUnwindSafe(|| d.remove_arc(x, y))).map_or_else(|_| V::atom("p"), V::bool),
+            "has" => catch_unwind(AssertUnwindSafe(|| d.has_arc(x, y))).map_or_else(|_| V::atom("p"), V::bool),
+            _ => return None,
+        };
+        out.push(c);
+    }
+    Some(vec![V::L(out), V::pairs(d.arcs()), V::u(d.size())])
+}
+
+// ------------------------------------------------------------------------------- traversals
+
+fn opt(o: Option<usize>) -> V {
+    V::opt_u(o)
+}
+
+/// Drain an iterator until `None`, `rounds` times (an iterator may yield again after `None`).
+/// Output: `[[items of round 1] [items of round 2] …] ok|panic`.
+fn drain<I, T, F>(mk: impl FnOnce() -> I, rounds: usize, show: F) -> Vec<V>
+where
+    I: Iterator<Item = T>,
+    F: Fn(T) -> V,
+{
+    let mut all: Vec<V> = Vec::new();
+    let mut cur: Vec<V> = Vec::new();
+    let r = catch_unwind(AssertUnwindSafe(|| {
+        let mut it = mk();
+        for _ in 0..rounds {
+            while let Some(x) = it.next() {
+                cur.push(show(x));
+                if cur.len() > 100_000 {
+                    break;
+                }
+            }
+            all.push(V::L(std::mem::take(&mut cur)));
+        }
+    }));
+    if r.is_err() {
+        all.push(V::L(cur));
+    }
+    vec![oc(), V::L(all), V::atom(if r.is_ok() { "ok" } else { "panic" })]
+}
+
+fn run_it(kind: &str, desc: &Desc, src: &[usize], rounds: usize) -> Option<Vec<V>> {
+    let s = || src.to_vec().into_iter();
+    let pair = |(a, b): (usize, usize)| V::L(vec![V::u(a), V::u(b)]);
+    let step = |(p, v): (Option<usize>, usize)| V::L(vec![opt(p), V::u(v)]);
+    Some(match kind {
+        "bfs" => with_digraph!(desc, d => drain(|| Bfs::new(&d, s()), rounds, V::u)),
+        "bfs_dist" => with_digraph!(desc, d => drain(|| BfsDist::new(&d, s()), rounds, pair)),
+        "bfs_pred" => with_digraph!(desc, d => drain(|| BfsPred::new(&d, s()), rounds, step)),
+        "dfs" => with_digraph!(desc, d => drain(|| Dfs::new(&d, s()), rounds, V::u)),
+        "dfs_dist" => with_digraph!(desc, d => drain(|| DfsDist::new(&d, s()), rounds, pair)),
+        "dfs_pred" => with_digraph!(desc, d => drain(|| DfsPred::new(&d, s()), rounds, step)),
+        "dijkstra" if desc.repr == "wu" => {
+            let d = desc.build_wu();
+            drain(|| Dijkstra::new(&d, s()), rounds, V::u)
+        }
+        "dijkstra_dist" if desc.repr == "wu" => {
+            let d = desc.build_wu();
+            drain(|| DijkstraDist::new(&d, s()), rounds, pair)
+        }
+        "dijkstra_pred" if desc.repr == "wu" => {
+            let d = desc.build_wu();
+            drain(|| DijkstraPred::new(&d, s()), rounds, step)
+        }
+        _ => return None,
+    })
+}
+
+fn show_tree(t: PredecessorTree) -> Vec<V> {
+    vec![V::L(t.into_iter().map(opt).collect())]
+}
+
+fn show_dist(v: Vec<usize>) -> Vec<V> {
+    vec![V::L(v.into_iter().map(|x| if x == usize::MAX { V::atom("inf") } else { V::u(x) }).collect())]
+}
+
+fn show_path(p: Option<Vec<usize>>) -> Vec<V> {
+    vec![p.map_or_else(V::none, V::us)]
+}
+
+fn run_alg(name: &str, desc: &Desc, a: &[V]) -> Option<Vec<V>> {
+    let src = a.first().and_then(V::as_usizes);
+    let tg = a.get(1).and_then(V::as_usizes);
+    Some(match name {
+        "bfs_dist_distances" => {
+            let s = src?;
+            with_digraph!(desc, d => show_dist(BfsDist::new(&d, s.into_iter()).distances()))
+        }
+        "bfs_pred_predecessors" => {
+            let s = src?;
+            with_digraph!(desc, d => show_tree(BfsPred::new(&d, s.into_iter()).predecessors()))
+        }
+        "bfs_pred_shortest_path" => {
+            let (s, t) = (src?, tg?);
+            with_digraph!(desc, d => show_path(BfsPred::new(&d, s.into_iter()).shortest_path(|v| t.contains(&v))))
+        }
+        "bfs_pred_cycles" => {
+            let s = src?;
+            with_digraph!(desc, d => vec![V::L(BfsPred::new(&d, s.into_iter()).cycles().into_iter().map(V::us).collect())])
+        }
+        "dfs_pred_predecessors" => {
+            let s = src?;
+            with_digraph!(desc, d => show_tree(DfsPred::new(&d, s.into_iter()).predecessors()))
+        }
+        "dijkstra_dist_distances" if desc.repr == "wu" => {
+            let d = desc.build_wu();
+            show_dist(DijkstraDist::new(&d, src?.into_iter()).distances())
+        }
+        "dijkstra_pred_predecessors" if desc.repr == "wu" => {
+            let d = desc.build_wu();
+            show_tree(DijkstraPred::new(&d, src?.into_iter()).predecessors())
+        }
+        "dijkstra_pred_shortest_path" if desc.repr == "wu" => {
+            let d = desc.build_wu();
+            let t = tg?;
+            show_path(DijkstraPred::new(&d, src?.into_iter()).shortest_path(|v| t.contains(&v)))
+        }
+        // BellmanFordMoore::new needs ContiguousOrder only; distances needs isize weights
+        "bfm_new" => {
+            let s = a.first()?.as_usize()?;
+            match desc.repr.as_str() {
+                "al" => { let d = desc.build_al(); let _ = BellmanFordMoore::new(&d, s); }
+                "mx" => { let d = desc.build_mx(); let _ = BellmanFordMoore::new(&d, s); }
+                "el" => { let d = desc.build_el(); let _ = BellmanFordMoore::new(&d, s); }
+                "wu" => { let d = desc.build_wu(); let _ = BellmanFordMoore::new(&d, s); }
+                "wi" => { let d = desc.build_wi(); let _ = BellmanFordMoore::new(&d, s); }
+                _ => return None,
+            }
+            vec![]
+        }
+        "bfm" if desc.repr == "wi" => {
+            let d = desc.build_wi();
+            let mut x = BellmanFordMoore::new(&d, a.first()?.as_usize()?);
+            match x.distances() {
+                None => vec![V::none()],
+                Some(ds) => vec![V::L(ds.iter().map(|&w| if w == isize::MAX { V::atom("inf") } else { V::i(w) }).collect())],
+            }
+        }
+        "fw_new" => {
+            with_digraph!(desc, d => { let _ = FloydWarshall::new(&d); vec![] })
+        }
+        "fw" if desc.repr == "wi" => {
+            let d = desc.build_wi();
+            let mut x = FloydWarshall::new(&d);
+            let m = x.distances();
+            let mut out = vec![V::u(m.order)];
+            out.extend(dig(m.dist.iter().map(|&w| w as usize)));
+            out.extend(dig(m.center()));
+            out.extend(dig(m.periphery()));
+            out.push(V::bool(m.is_connected()));
+            out
+        }
+        _ => return None,
+    })
+}
+
+// ------------------------------------------------------------------------------- small types
+
+fn run_dm(name: &str, a: &[V]) -> Option<Vec<V>> {
+    let lit = |i: usize| -> Option<DistanceMatrix<isize>> {
+        let dist: Vec<isize> = a.get(i)?.as_list()?.iter().map(V::as_isize).collect::<Option<_>>()?;
+        // the struct is non-exhaustive, but its three fields are public and assignable
+        let mut m = DistanceMatrix::<isize>::new(1, 0);
+        m.dist = dist;
+        m.infinity = a.get(i + 1)?.as_isize()?;
+        m.order = a.get(i + 2)?.as_usize()?;
+        Some(m)
+    };
+    Some(match name {
+        "new" => {
+            let m = DistanceMatrix::<isize>::new(a.first()?.as_usize()?, isize::MAX);
+            let mut out = vec![V::u(m.order), V::u(m.dist.len())];
+            out.push(V::bool(m.dist.iter().all(|&x| x == isize::MAX)));
+            out
+        }
+        "center" => dig(lit(0)?.center()),
+        "diameter" => vec![V::i(*lit(0)?.diameter())],
+        "eccentricities" => { let m = lit(0)?; let r = dig(m.eccentricities().map(|&x| x as usize)); r }
+        "is_connected" => b(lit(0)?.is_connected()),
+        "periphery" => { let m = lit(0)?; let r = dig(m.periphery()); r }
+        "index" => vec![V::i(lit(0)?[a.get(3)?.as_usize()?])],
+        "index2" => vec![V::i(lit(0)?[(a.get(3)?.as_usize()?, a.get(4)?.as_usize()?)])],
+        "index_mut2" => {
+            let mut m = lit(0)?;
+            m[(a.get(3)?.as_usize()?, a.get(4)?.as_usize()?)] = 5;
+            dig(m.dist.iter().map(|&x| x as usize))
+        }
+        _ => return None,
+    })
+}
+
+fn run_pt(name: &str, a: &[V]) -> Option<Vec<V>> {
+    Some(match name {
+        "new" => {
+            let t = PredecessorTree::new(a.first()?.as_usize()?);
+            vec![V::u(t.pred.len())]
+        }
+        "index" => {
+            let pred: Vec<Option<usize>> = a.first()?.as_list()?.iter().map(V::as_opt_usize).collect::<Option<_>>()?;
+            let t = PredecessorTree::from(pred);
+            vec![opt(t[a.get(1)?.as_usize()?])]
+        }
+        "index_mut" => {
+            let pred: Vec<Option<usize>> = a.first()?.as_list()?.iter().map(V::as_opt_usize).collect::<Option<_>>()?;
+            let mut t = PredecessorTree::from(pred);
+            t[a.get(1)?.as_usize()?] = Some(0);
+            show_tree(t)
+        }
+        _ => return None,
+    })
+}
+
+// ------------------------------------------------------------------------------- dispatch
+
+/// One program. `None` = not a C13 op / malformed.
+fn run(op: &str, args: &[V]) -> Option<Vec<V>> {
+    match op {
+        "chk_gen" => {
+            let repr = args.first()?.as_atom()?.to_string();
+            let name = args.get(1)?.as_atom()?.to_string();
+            class(|| run_gen(&repr, &name, &args[2..]))
+        }
+        "chk_rows" => {
+            let repr = args.first()?.as_atom()?.to_string();
+            let rows = args.get(1)?;
+            class(|| run_rows(&repr, rows))
+        }
+        "chk_from" => {
+            let src = Desc::parse(args.first()?)?;
+            let dst = args.get(1)?.as_atom()?.to_string();
+            class(|| run_from(&src, &dst))
+        }
+        "chk_q" => {
+            let name = args.first()?.as_atom()?.to_string();
+            let desc = Desc::parse(args.get(1)?)?;
+            class(|| run_q(&name, &desc, &args[2..]))
+        }
+        "chk_chain" => {
+            let start = args.first()?;
+            let producers = args.get(1)?.as_list()?;
+            let consumer = args.get(2)?.as_atom()?.to_string();
+            class(|| run_chain(start, producers, &consumer))
+        }
+        "chk_hist" => {
+            let desc = Desc::parse(args.first()?)?;
+            let steps = args.get(1)?.as_list()?;
+            class(|| run_hist(&desc, steps))
+        }
+        "chk_mx" => {
+            let order = args.first()?.as_usize()?;
+            let steps = args.get(1)?.as_list()?;
+            class(|| run_mx(order, steps))
+        }
+        "chk_it" => {
+            let kind = args.first()?.as_atom()?;
+            let desc = Desc::parse(args.get(1)?)?;
+            let src = args.get(2)?.as_usizes()?;
+            let rounds = args.get(3)?.as_usize()?.clamp(1, 4);
+            // building the digraph may itself panic (it must not for generated descriptions)
+            match catch_unwind(AssertUnwindSafe(|| run_it(kind, &desc, &src, rounds))) {
+                Ok(r) => r,
+                Err(_) => Some(vec![oc(), V::atom("build-panic")]),
+            }
+        }
+        "chk_alg" => {
+            let name = args.first()?.as_atom()?.to_string();
+            let desc = Desc::parse(args.get(1)?)?;
+            class(|| run_alg(&name, &desc, &args[2..]))
+        }
+        "chk_dm" => {
+            let name = args.first()?.as_atom()?.to_string();
+            class(|| run_dm(&name, &args[1..]))
+        }
+        "chk_pt" => {
+            let name = args.first()?.as_atom()?.to_string();
+            class(|| run_pt(&name, &args[1..]))
+        }
+        "chk_prng" => {
+            let seed = args.first()?.as_u64()?;
+            let k = args.get(1)?.as_usize()?.min(10_000);
+            class(|| {
+                let mut r = Xoshiro256StarStar::new(seed);
+                let mut h = 0u64;
+                for _ in 0..k {
+                    h = h.rotate_left(5) ^ r.next()?;
+                    h ^= u64::from(r.next_bool());
+                    h ^= r.next_f64().to_bits();
+                }
+                let mut z = Xoshiro256StarStar::default();
+                let _ = z.next();
+                Some(vec![V::I(i128::from(h))])
+            })
+        }
+        _ => None,
+    }
+}
+
+/// Live bytes once they stop moving: a worker thread that was joined (or whose `scope` ended) may
+/// still be freeing its own `Thread` handle for a moment, so a single read can be off by one such
+/// block in either direction. A real leak persists however long one waits.
+fn settled_live_bytes() -> isize {
+    let mut a = crate::alloc::live_bytes();
+    for _ in 0..200 {
+        std::thread::sleep(std::time::Duration::from_micros(150));
+        let b = crate::alloc::live_bytes();
+        if a == b {
+            return b;
+        }
+        a = b;
+    }
+    a
+}
+
+pub fn eval(op: &str, args: &[V]) -> Option<Vec<V>> {
+    if op == "chk_leak" {
+        // chk_leak <k> [<op> <arg>*]  =>  <oc> <class of the last run> <live-byte delta>
+        let k = args.first()?.as_usize()?.clamp(1, 200);
+        let prog = args.get(1)?.as_list()?;
+        let pop = prog.first()?.as_atom()?.to_string();
+        if pop == "chk_leak" {
+            return None;
+        }
+        let pargs = &prog[1..];
+        // warm-up: lazy statics, thread-locals, the panic machinery, stdout buffers
+        let warm = run(&pop, pargs)?;
+        drop(warm);
+        let _ = run(&pop, pargs);
+        // A leak reproduces on every attempt and grows with k; the teardown noise of worker threads
+        // (one `Thread` block, either sign) does not: report 0 as soon as one attempt is clean.
+        let mut panicked = false; // no allocation between the two measurements survives
+        let mut delta: isize = 0;
+        for _attempt in 0..4 {
+            let before = settled_live_bytes();
+            for _ in 0..k {
+                let r = run(&pop, pargs)?;
+                panicked = r.iter().any(|v| matches!(v, V::A(s) if s == "panic"));
+                drop(r);
+            }
+            let mut after = settled_live_bytes();
+            let mut waits = 0;
+            while after != before && waits < 5 {
+                std::thread::sleep(std::time::Duration::from_millis(5));
+                after = settled_live_bytes();
+                waits += 1;
+            }
+            delta = after - before;
+            if delta == 0 {
+                break;
+            }
+        }
+        let cls = V::atom(if panicked { "panic" } else { "ret" });
+        return Some(vec![oc(), cls, V::I(delta as i128)]);
+    }
+    if !op.starts_with("chk_") {
+        return None;
+    }
+    run(op, args)
+}
